@@ -1709,6 +1709,21 @@ where
         self.keep = true;
     }
 
+    /// Keep the subscription after a round that turned out to have nothing to report
+    /// and therefore sent nothing: the watermarks advance (nothing the subscription is
+    /// interested in happened up to them), but the last-report timestamp does NOT - the
+    /// subscriber heard nothing, so the liveness (max interval) clock keeps running.
+    pub fn set_keep_unsent(&mut self) {
+        let sub = self.subscription();
+        let (reported_at, retry_at, fail_count) = (sub.reported_at, sub.retry_at, sub.fail_count);
+
+        self.next_reported_at = reported_at;
+        self.next_retry_at = retry_at;
+        self.next_fail_count = fail_count;
+
+        self.keep = true;
+    }
+
     /// Keep the subscription in the table after a *failed* send to the peer, so it
     /// retries — with a back-off, and without advancing its watermarks or its
     /// last-success timestamp.
